@@ -6,7 +6,6 @@ import (
 	"fmt"
 	"os"
 	"path/filepath"
-	"runtime"
 	"strings"
 	"sync"
 	"sync/atomic"
@@ -273,48 +272,23 @@ func runHammer(c Case) (res Result) {
 		check(c.Reps)
 		return
 	}
-	var gen, ready, arrived atomic.Int64
-	var wg sync.WaitGroup
-	wake := make([]chan struct{}, len(c.Race))
-	for i, line := range c.Race {
-		wake[i] = make(chan struct{}, 1)
-		wg.Add(1)
-		go func() {
-			defer wg.Done()
-			for rep := int64(1); rep <= int64(c.Reps); rep++ {
-				if _, ok := <-wake[i]; !ok {
-					return
-				}
-				ready.Add(1)
-				for gen.Load() < rep { // spin only between "everybody is awake" and the release
-				}
-				for k := int64(0); k < (rep%64)*int64(i)*4; k++ { // small varying stagger
-					_ = gen.Load()
-				}
-				im.do(line)
-				arrived.Add(1)
-			}
-		}()
+	if len(c.Ops) > 0 && c.Ops[0] == "starve" {
+		runStarve(im, c, check)
+		return
 	}
-	defer func() {
-		for _, w := range wake {
-			close(w)
-		}
-		wg.Wait()
-	}()
 	for rep := 1; rep <= c.Reps; rep++ {
-		arrived.Store(0)
-		ready.Store(0)
-		for _, w := range wake {
-			w <- struct{}{}
+		start := make(chan struct{})
+		var wg sync.WaitGroup
+		for _, line := range c.Race {
+			wg.Add(1)
+			go func() {
+				defer wg.Done()
+				<-start
+				im.do(line)
+			}()
 		}
-		for ready.Load() < int64(len(c.Race)) {
-			runtime.Gosched()
-		}
-		gen.Store(int64(rep))
-		for arrived.Load() < int64(len(c.Race)) {
-			runtime.Gosched()
-		}
+		close(start)
+		wg.Wait()
 		if !check(rep) {
 			return
 		}
@@ -323,4 +297,45 @@ func runHammer(c Case) (res Result) {
 		}
 	}
 	return
+}
+
+// runStarve: the schedule that makes the window between "cache updated, s.mu released" and "live maps
+// updated" wide. A reload of a large file holds s.mu for milliseconds; meanwhile Race[0] (say add c),
+// then Race[1] (say delete c) queue up on s.mu behind a goroutine that keeps taking s.mu in a loop.
+// Having waited > 1 ms the waiters put the mutex into starvation mode, in which Unlock hands the lock
+// to the next waiter and yields the processor: Race[0] is paused right after its Unlock, Race[1] runs
+// to completion, then Race[0] goes on. Ops = ["starve", docA, docB, clean-up lines...]; Reps trials.
+func runStarve(im *Impl, c Case, check func(int) bool) {
+	docs := []Doc{Doc(c.Ops[1]), Doc(c.Ops[2])}
+	for rep := 1; rep <= c.Reps; rep++ {
+		tmp := filepath.Join(im.dir, "new.json")
+		os.WriteFile(tmp, docs[rep%2].text(), 0o644)
+		os.Rename(tmp, im.path)
+		var stop atomic.Bool
+		var wg, wd sync.WaitGroup
+		wg.Add(1)
+		go func() { defer wg.Done(); im.ms.LoadFromFile() }()
+		time.Sleep(1500 * time.Microsecond)
+		wd.Add(1)
+		go func() {
+			defer wd.Done()
+			for !stop.Load() {
+				im.ms.DeleteCredential("nobody")
+			}
+		}()
+		for _, line := range c.Race {
+			wg.Add(1)
+			go func() { defer wg.Done(); im.do(line) }()
+			time.Sleep(200 * time.Microsecond)
+		}
+		wg.Wait()
+		stop.Store(true)
+		wd.Wait()
+		if !check(rep) {
+			return
+		}
+		for _, line := range c.Ops[3:] {
+			im.do(line)
+		}
+	}
 }
